@@ -12,10 +12,10 @@ import (
 func init() {
 	evid.Tests(
 		evid.Spec{Name: "TestGrepEveryPair", Kind: "plain", QuickShards: 4, ThoroughShards: 6},
-		evid.Spec{Name: "TestGrepSubsets", Kind: "rapid", Quick: 320, Thorough: 20000, QuickShards: 4, ThoroughShards: 8},
-		evid.Spec{Name: "TestGrepPaired", Kind: "rapid", Quick: 200, Thorough: 12000, QuickShards: 2, ThoroughShards: 6},
-		evid.Spec{Name: "TestDistribute", Kind: "rapid", Quick: 160, Thorough: 6000, QuickShards: 2, ThoroughShards: 3},
-		evid.Spec{Name: "TestUnidentified", Kind: "rapid", Quick: 100, Thorough: 4000, QuickShards: 2, ThoroughShards: 3},
+		evid.Spec{Name: "TestGrepSubsets", Kind: "rapid", Quick: 320, Thorough: 16000, QuickShards: 4, ThoroughShards: 8},
+		evid.Spec{Name: "TestGrepPaired", Kind: "rapid", Quick: 200, Thorough: 10000, QuickShards: 4, ThoroughShards: 6},
+		evid.Spec{Name: "TestDistribute", Kind: "rapid", Quick: 160, Thorough: 5000, QuickShards: 2, ThoroughShards: 3},
+		evid.Spec{Name: "TestUnidentified", Kind: "rapid", Quick: 100, Thorough: 3000, QuickShards: 2, ThoroughShards: 3},
 	)
 	evid.Commands("obigrep", "obidistribute", "obimultiplex")
 	ruleParts["grep"] = "Every case is one run of the real command (built from the tree under test) on generated files. " +
@@ -38,7 +38,7 @@ func init() {
 // repeatable option twice - each plan with and without -v, on generated records.
 func TestGrepEveryPair(t *testing.T) {
 	plans := gAllPlans()
-	reps := evid.Pick(1, 20)
+	reps := evid.Pick(1, 16)
 	done := 0
 	for pi, plan := range plans {
 		if pi%evid.NShards() != evid.Shard() {
